@@ -37,6 +37,10 @@ PANEL = [
     # B omits a schema-required attribute: its solo result is the required-attribute exception
     ({'element': 'tie', 'value': None, 'attrs': {'type': 'start'}},
      {'element': 'tie', 'value': None, 'attrs': {}}),
+    # first use of an enumeration type and of a union type from both threads
+    ({'element': 'step', 'value': 'A', 'attrs': {}}, {'element': 'step', 'value': 'H', 'attrs': {}}),
+    ({'element': 'words', 'value': 'a', 'attrs': {'font_size': 12.5}},
+     {'element': 'words', 'value': 'b', 'attrs': {'font_size': 'large', 'font_weight': 'bold'}}),
     ({'element': 'accent', 'value': None, 'attrs': {'placement': 'above'}},
      {'element': 'staccato', 'value': None, 'attrs': {'placement': 'below', 'color': '#000000'}}),
 ]
